@@ -97,4 +97,85 @@ theorem jsonOneItem_rt (hA : ∀ k, k < 16 → jsonChunkA k = true) (hB : ∀ k,
     unfold jsonChunkB at this
     exact (List.all_eq_true.mp this) r hmem
 
+/-! ### DPT 19: `from_dict(as_dict(v)) = v` for every decoded value -/
+
+/-- every member name parses back from its lower-case form to the same member -/
+def enumNamesOK (t : EnumTable) : Bool :=
+  t.all fun (n, v) => enumParseName t (lowerName n) == some (n, v)
+
+theorem byValue_mem {t : EnumTable} {v : Nat} {s : String} (h : t.byValue v = some s) : (s, v) ∈ t := by
+  unfold EnumTable.byValue at h
+  cases hf : t.find? (fun x => x.2 == v) with
+  | none => simp [hf] at h
+  | some pr =>
+    obtain ⟨n, x⟩ := pr
+    have hm := List.mem_of_find?_eq_some hf
+    have hp := List.find?_some hf
+    simp only [hf, Option.map_some] at h
+    simp only [beq_iff_eq] at hp
+    injection h with h
+    subst h; subst hp
+    exact hm
+
+theorem jEnum_lower {t : EnumTable} (hok : enumNamesOK t = true) {v : Nat} {s : String} (h : t.byValue v = some s) :
+    jEnum t (.str (lowerName s)) = .ok (.enum s) := by
+  have hm := byValue_mem h
+  unfold enumNamesOK at hok
+  rw [List.all_eq_true] at hok
+  have := hok (s, v) hm
+  simp only [beq_iff_eq] at this
+  simp [jEnum, enumParseJ, this]
+
+
+theorem datetime_json_id (r : Row) (hf : r.family = .datetime)
+    (hok : enumNamesOK (r.enumTable "day_of_week") = true) (raw : List Nat) (fs : List (String × Atom))
+    (h : decDateTime r raw = .ok (.obj fs)) :
+    ∃ d, asForm r (.obj fs) = some (.dict d) ∧ fromDict r d = .ok fs := by
+  unfold decDateTime at h
+  match raw, h with
+  | [r0, r1, r2, r3, r4, r5, r6, r7], h =>
+    simp only [enumOfValue] at h
+    cases hdw : (r.enumTable "day_of_week").byValue (r3 / 32) with
+    | none =>
+      rw [hdw] at h
+      by_cases hw : bit r6 2
+      · by_cases h4 : bit r6 4 <;> by_cases h3 : bit r6 3 <;> by_cases h1 : bit r6 1 <;> by_cases h5 : bit r6 5 <;>
+          simp only [h4, h3, hw, h1, h5, if_true, if_false, Bool.false_eq_true] at h <;>
+          split at h <;> (try (cases h; done)) <;>
+          (injection h with h; injection h with h; subst h
+           simp only [optInt]
+           cases ha : asForm r (.obj _) with
+           | none => simp [asForm, hf, atomToJ] at ha
+           | some f =>
+             simp [asForm, hf, atomToJ] at ha
+             subst ha
+             refine ⟨_, rfl, ?_⟩
+             simp [fromDict, hf, jget, bind, Except.bind, pure, Except.pure])
+      · simp [hw] at h
+    | some s =>
+      rw [hdw] at h
+      have hje := jEnum_lower hok hdw
+      by_cases h4 : bit r6 4 <;> by_cases h3 : bit r6 3 <;> by_cases h2 : bit r6 2 <;> by_cases h1 : bit r6 1 <;>
+        by_cases h5 : bit r6 5 <;>
+        simp only [h4, h3, h2, h1, h5, if_true, if_false, Option.map_some, Bool.false_eq_true] at h <;>
+        split at h <;> (try (cases h; done)) <;>
+        (injection h with h; injection h with h; subst h
+         simp only [optInt]
+         cases ha : asForm r (.obj _) with
+         | none => simp [asForm, hf, atomToJ] at ha
+         | some f =>
+           simp [asForm, hf, atomToJ] at ha
+           subst ha
+           refine ⟨_, rfl, ?_⟩
+           simp [fromDict, hf, jget, hje, bind, Except.bind, pure, Except.pure])
+
+/-- for a value `from_knx` returned, `to_knx(as_dict(v))` is `to_knx(v)` (up to the error wrapping of DPTComplex) -/
+theorem datetime_encodeJson (ctx : Ctx) (r : Row) (hf : r.family = .datetime)
+    (hok : enumNamesOK (r.enumTable "day_of_week") = true) (raw : List Nat) (fs : List (String × Atom))
+    (h : decDateTime r raw = .ok (.obj fs)) :
+    ∃ d, asForm r (.obj fs) = some (.dict d) ∧ encodeJson ctx r (.dict d) = complexErr (encodeObj ctx r fs) := by
+  obtain ⟨d, h1, h2⟩ := datetime_json_id r hf hok raw fs h
+  refine ⟨d, h1, ?_⟩
+  simp [encodeJson, hf, h2, Except.bind]
+
 end XknxVerif.DPT
